@@ -6,7 +6,7 @@ CFG = {
 "technique": "cut-point enumeration: every strict prefix (every length of headers and binary data, every token boundary of text bodies) of every file of a family of small valid PLY/STL/SPZ/PTS/.splat files, each delivered through three legal io.Reader behaviours, decoded by the real readers; deterministic hang detection by a loop-iteration budget injected at build time (tools/looptick overlay + rt/vbudget)",
 "jobs": [{"variant": "cut-c14", "id": "C14"}],
 "engine": "cut",
-"level_text": "The fault is truncation of the input at the io.Reader. For 23 (thorough: 39) valid files — PLY written by polyform (point cloud with normals+colours, indexed mesh with normals, corner-indexed mesh with texture coordinates) in ascii / little-endian / big-endian, two hand-encoded foreign PLY layouts (ascii with uchar colours, an unclaimed property and a quad; big-endian doubles with per-face texcoord lists), binary STL with 0/1/2 triangles, reference-encoded gzip'd SPZ v1/v2 × SH degree 0/1, PTS with 3/4/7 columns, a 3-record .splat — every cut position is decoded under readers that return everything at once, one byte per Read, and the last bytes together with io.EOF. Oracle per decode: an error, or a value bit-identical to the decode of the complete file, or (.splat) exactly the floor(len/32) complete records; a runtime panic is a crash; more than 64*(len(file)+64) executed loop iterations in the reader packages is non-termination (no wall clock enters a verdict).",
+"level_text": "The fault is truncation of the input at the io.Reader. For 24 (thorough: 41) valid files — PLY written by polyform (point cloud with normals+colours, indexed mesh with normals, corner-indexed mesh with texture coordinates) in ascii / little-endian / big-endian, three hand-encoded foreign PLY layouts (ascii with uchar colours, an unclaimed property and a quad — thorough: also with CRLF line ends; big-endian doubles with per-face texcoord lists; little-endian with 4-byte list counts, RGBA and a quad), binary STL with 0/1/2 triangles, reference-encoded gzip'd SPZ v1/v2 × SH degree 0/1, PTS with 3/4/7 columns, a 3-record .splat — every cut position is decoded under readers that return everything at once, one byte per Read, and the last bytes together with io.EOF. Oracle per decode: an error, or a value bit-identical to the decode of the complete file, or (.splat) exactly the floor(len/32) complete records; a runtime panic is a crash; more than 64*(len(file)+64) executed loop iterations in the reader packages is non-termination (no wall clock enters a verdict).",
 "level_note": "Trusted: the reference encoders and layout parser in harness/props/c14, tools/looptick (one Tick per loop body, validated by re-parsing), Go's compress/gzip for producing the SPZ container. The complete file must first decode to the element counts and positions that were put into it (valid-file precondition), else its cuts are a harness error, not a verdict. Loops inside the standard library do not tick; a hang there is caught by a 20 s no-progress watchdog and reported as a harness error.",
 "rule": "every (file, cut length, reader behaviour) triple of the stated family is executed; a case is non-trivial when the prefix is non-empty (0 < cut < len); distinct by (file id, cut, reader behaviour)",
 "assumptions": COMMON_ASSUME + [
